@@ -81,6 +81,11 @@ impl Duration {
     pub open spec fn is_zero_spec(&self) -> bool { self.nanos == 0 }
     #[verifier::when_used_as_spec(is_zero_spec)]
     pub fn is_zero(&self) -> (r: bool) ensures r == self.is_zero_spec() { self.nanos == 0 }
+    /// unit conversions truncate, exactly as std's do
+    pub fn as_nanos(&self) -> (r: u128) ensures r == self.nanos { self.nanos as u128 }
+    pub fn as_micros(&self) -> (r: u128) ensures r == self.nanos / 1_000 { (self.nanos / 1_000) as u128 }
+    pub fn as_millis(&self) -> (r: u128) ensures r == self.nanos / 1_000_000 { (self.nanos / 1_000_000) as u128 }
+    pub fn as_secs(&self) -> (r: u64) ensures r == self.nanos / 1_000_000_000 { self.nanos / 1_000_000_000 }
 }
 #[derive(Clone, Copy)]
 pub struct Instant { pub t: u64 }
